@@ -1,2 +1,3 @@
 import PyhfGen.Interp
 import PyhfGen.Infer
+import PyhfGen.Model
